@@ -29,7 +29,7 @@ impl<'env> Context<'env> {
 //@ extract file=minijinja/src/vm/context.rs item=fn:Context::push_frame ret=r
 //@ |    requires old(self).wf(), old(self).recursion_limit < usize::MAX,
 //@ |    ensures
-//@ |        r is Ok ==> final(self).stack@ == old(self).stack@.push(layer),
+//@ |        r is Ok ==> final(self).stack@ == old(self).stack@.push(layer) && final(self).wf(),
 //@ |        r is Err ==> final(self).stack@ == old(self).stack@,
 //@ |        final(self).outer_stack_depth == old(self).outer_stack_depth, final(self).recursion_limit == old(self).recursion_limit,
 
@@ -37,6 +37,12 @@ impl<'env> Context<'env> {
 //@ extract file=minijinja/src/vm/context.rs item=fn:Context::pop_frame ret=r
 //@ |    requires old(self).stack@.len() > 0,
 //@ |    ensures final(self).stack@ == old(self).stack@.drop_last(), r == old(self).stack@.last(),
+//@ |        final(self).outer_stack_depth == old(self).outer_stack_depth, final(self).recursion_limit == old(self).recursion_limit,
+
+//# ob name=scope_restore_stack_depth verus_fn=Context::restore_stack_depth fn=vm::context::Context::restore_stack_depth kind=complete stmt="restore_stack_depth(d) (the error path of include / block rendering) drops exactly the frames above depth d: the lowest d frames are untouched, nothing else about the context changes"
+//@ extract file=minijinja/src/vm/context.rs item=fn:Context::restore_stack_depth
+//@ |    requires depth <= old(self).stack@.len(),
+//@ |    ensures final(self).stack@ == old(self).stack@.subrange(0, depth as int),
 //@ |        final(self).outer_stack_depth == old(self).outer_stack_depth, final(self).recursion_limit == old(self).recursion_limit,
 
 //# ob name=scope_stack_depth verus_fn=Context::stack_depth fn=vm::context::Context::stack_depth kind=complete stmt="stack_depth() is the number of frames (the value a later restore returns to)"
@@ -57,6 +63,21 @@ pub fn push_pop_identity<'env>(ctx: &mut Context<'env>, f: Frame<'env>)
         }
         Err(_) => {}
     }
+}
+
+//# ob name=scope_restore_after_pushes verus_fn=restore_after_pushes fn=vm::context::Context kind=complete stmt="client of the contracts: recording stack_depth(), pushing any two frames (each push may fail) and then restore_stack_depth(recorded) gives back exactly the recorded frame stack - what State::with_execution_state relies on when an included template or a block fails half way"
+pub fn restore_after_pushes<'env>(ctx: &mut Context<'env>, f: Frame<'env>, g: Frame<'env>)
+    requires old(ctx).wf(), old(ctx).recursion_limit < usize::MAX,
+    ensures final(ctx).stack@ == old(ctx).stack@,
+{
+    let ghost before = ctx.stack@;
+    let d = ctx.stack_depth();
+    let r1 = ctx.push_frame(f);
+    if r1.is_ok() {
+        let _r2 = ctx.push_frame(g);
+    }
+    ctx.restore_stack_depth(d);
+    assert(ctx.stack@ =~= before);
 }
 
 } // verus!
